@@ -1,1 +1,73 @@
-From TV Require Import Base.
+From TV Require Import Base Model.Command.
+
+Definition is_match (p : parse_res) : bool := match p with Match _ => true | _ => false end.
+
+Lemma handle_from_spec m : forall i,
+  match handle_from i m with
+  | HCommand j args => exists k, j = (i + k)%nat /\ nth_error m k = Some (Match args) /\
+                                 forall k', (k' < k)%nat -> forall p, nth_error m k' = Some p -> is_match p = false
+  | HUnknown => forall p, In p m -> is_match p = false
+  | HRaise => False
+  end.
+Proof.
+  induction m as [|p r IH]; intros i; simpl.
+  - intros p [].
+  - destruct p as [| |args].
+    + specialize (IH (S i)). destruct (handle_from (S i) r) as [|j a|].
+      * intros p [<-|H]; [reflexivity | apply IH; exact H].
+      * destruct IH as [k [Hj [Hn Hlt]]]. exists (S k). split; [lia|]. split; [exact Hn|].
+        intros k' Hk' p Hp. destruct k' as [|k'']; [inversion Hp; reflexivity|]. simpl in Hp. eapply Hlt; [|exact Hp]. lia.
+      * exact IH.
+    + specialize (IH (S i)). destruct (handle_from (S i) r) as [|j a|].
+      * intros p [<-|H]; [reflexivity | apply IH; exact H].
+      * destruct IH as [k [Hj [Hn Hlt]]]. exists (S k). split; [lia|]. split; [exact Hn|].
+        intros k' Hk' p Hp. destruct k' as [|k'']; [inversion Hp; reflexivity|]. simpl in Hp. eapply Hlt; [|exact Hp]. lia.
+      * exact IH.
+    + exists 0%nat. split; [lia|]. split; [reflexivity|]. intros k' Hk'. lia.
+Qed.
+
+(* the first command whose pattern matches (after its own decoding) handles the message *)
+Lemma handle_dispatch m i args :
+  handle m = HCommand i args <->
+  nth_error m i = Some (Match args) /\ forall j, (j < i)%nat -> forall p, nth_error m j = Some p -> is_match p = false.
+Proof.
+  unfold handle. assert (H := handle_from_spec m 0). split.
+  - intros E. rewrite E in H. destruct H as [k [Hj [Hn Hlt]]]. simpl in Hj. subst. auto.
+  - intros [Hn Hlt]. destruct (handle_from 0 m) as [|j a|] eqn:E.
+    + exfalso. assert (Hin : In (Match args) m) by (eapply nth_error_In; exact Hn). apply H in Hin. discriminate.
+    + destruct H as [k [Hj [Hn' Hlt']]]. simpl in Hj. subst j.
+      destruct (Nat.lt_trichotomy i k) as [Hlt1|[->|Hgt]].
+      * specialize (Hlt' i Hlt1 _ Hn). discriminate.
+      * rewrite Hn in Hn'. inversion Hn'. reflexivity.
+      * specialize (Hlt k Hgt _ Hn'). discriminate.
+    + destruct H.
+Qed.
+
+Lemma handle_unknown m : handle m = HUnknown <-> forall p, In p m -> is_match p = false.
+Proof.
+  unfold handle. assert (H := handle_from_spec m 0). split.
+  - intros E. rewrite E in H. exact H.
+  - intros Hall. destruct (handle_from 0 m) as [|j a|] eqn:E; [reflexivity | | destruct H].
+    destruct H as [k [_ [Hn _]]]. apply nth_error_In in Hn. apply Hall in Hn. discriminate.
+Qed.
+
+Lemma handle_never_raises m : handle m <> HRaise.
+Proof. unfold handle. assert (H := handle_from_spec m 0). intros E. rewrite E in H. exact H. Qed.
+
+Lemma stream_spec replies x :
+  In (EvWrite x) (stream replies false) <-> In (Some x) replies.
+Proof.
+  unfold stream. rewrite in_flat_map. split.
+  - intros [r [Hr Hx]]. destruct r as [y|]; [|destruct Hx]. destruct Hx as [Hx|[]]. inversion Hx; subst. exact Hr.
+  - intros H. exists (Some x). split; [exact H | left; reflexivity].
+Qed.
+
+(* the writes are exactly the non-empty replies, in order: stream is a filter-map *)
+Lemma stream_order replies :
+  stream replies false = map EvWrite (flat_map (fun r => match r with Some x => [x] | None => [] end) replies).
+Proof.
+  unfold stream. induction replies as [|[x|] r IH]; simpl; [reflexivity | rewrite IH; reflexivity | exact IH].
+Qed.
+
+Lemma pinned_refuted : exists m, handle_pinned_from 0 m = HRaise /\ handle m = HUnknown.
+Proof. exists [DecodeFails; NoMatch]. split; reflexivity. Qed.
